@@ -40,7 +40,7 @@ func (c17) Batches(tier string, seed uint64) []core.Batch {
 func (c17) Mandatory(tier string) []string {
 	return []string{"full:entries>=2", "full:no-final-newline", "full:leading-blank-lines", "full:multi-distribution", "full:multi-option", "full:zone-half-hour", "full:zone-negative",
 		"prefix:between-entries", "prefix:in-header", "prefix:in-body", "prefix:in-trailer", "prefix:missing-only-final-newline", "prefix:empty", "outcome:error", "outcome:entries",
-		"malformed:version", "malformed:no-date", "malformed:month", "malformed:column0-body", "malformed:no-trailer", "path:Parse", "path:ParseOne"}
+		"malformed:version", "malformed:no-date", "malformed:month", "malformed:column0-body", "malformed:no-trailer", "malformed:indented-header", "full:line>=4096-bytes", "path:Parse", "path:ParseOne"}
 }
 
 type clEntry struct {
@@ -133,7 +133,7 @@ func genChangelog(r *core.Rand, maxEntries int) clDoc {
 				body.WriteString("  [ " + person(r) + " ]\n")
 			default:
 				l := gen.ValueLine(r)
-				if len(l) > 60 {
+				if len(l) > 60 && len(l) < 4000 {
 					l = l[:60]
 				}
 				body.WriteString("  * " + strings.TrimRight(l, " \t") + "\n")
@@ -245,6 +245,11 @@ func (p c17) full(c *core.C, d clDoc) {
 		c.Cover("full:leading-blank-lines")
 	}
 	for _, e := range d.Entries {
+		for _, l := range strings.Split(e.Body, "\n") {
+			if len(l) >= 4096 {
+				c.Cover("full:line>=4096-bytes")
+			}
+		}
 		if len(e.Dists) > 1 {
 			c.Cover("full:multi-distribution")
 		}
@@ -395,7 +400,7 @@ func (p c17) RunBatch(t *core.T, b core.Batch) {
 			k := r.Intn(len(d.Entries))
 			e := &d.Entries[k]
 			class := ""
-			switch i % 5 {
+			switch i % 6 {
 			case 0:
 				class = "version"
 				e.Version = r.Pick([]string{"a1.0", "1.0 2", "", "1:", "1_0", "x:1"})
@@ -410,8 +415,13 @@ func (p c17) RunBatch(t *core.T, b core.Batch) {
 				e.Body = "\n  * ok\nthis line starts in column 0\n\n"
 			case 4:
 				class = "no-trailer"
+			case 5:
+				class = "indented-header"
 			}
 			text, _, _ := d.render()
+			if class == "indented-header" {
+				text = strings.Replace(text, e.header(), r.Pick([]string{" ", "  ", "   "})+e.header(), 1)
+			}
 			if class == "no-trailer" {
 				text = strings.Replace(text, e.trailer(), "", 1)
 				if k == len(d.Entries)-1 {
